@@ -607,6 +607,35 @@ fn run_line(line: &str) -> String {
                 None => "OK R 0 0".to_string(),
             }
         }
+        "tokdump" => {
+            // the real lexer's token stream in a compact notation (C06 replays)
+            let s = unhex(t.next());
+            let lexer = Lexer::from_char_stream(s.chars());
+            let mut out: Vec<String> = Vec::new();
+            for tok in lexer {
+                match tok {
+                    Ok(tk) => out.push(match tk.data {
+                        ruschm::parser::TokenData::Identifier(i) => format!("ID {}", hex(&i)),
+                        ruschm::parser::TokenData::Primitive(p) => match p {
+                            Primitive::Integer(i) => format!("I {}", i),
+                            Primitive::Rational(a, b) => format!("Q {} {}", a, b),
+                            Primitive::Real(r) => format!("R {}", hex(&r)),
+                            Primitive::Boolean(b) => format!("B {}", b as i32),
+                            Primitive::Character(c) => format!("C {}", c as u32),
+                            Primitive::String(st) => format!("S {}", hex(&st)),
+                        },
+                        ruschm::parser::TokenData::LeftParen => "LP".to_string(),
+                        ruschm::parser::TokenData::RightParen => "RP".to_string(),
+                        other => format!("{:?}", other),
+                    }),
+                    Err(_) => {
+                        out.push("ERR".to_string());
+                        break;
+                    }
+                }
+            }
+            out.join(" ;; ")
+        }
         "ping" => format!("OK pong {}", ruschm::repl::__VERIF_STAMP),
         x => format!("BADCMD {}", x),
     }
